@@ -8,7 +8,7 @@
 EXTENDS Array3D, Json, IOUtils, TLCExt, Sequences
 
 VARIABLE l
-tvars == <<arr, made, last, l>>
+tvars == <<arr, made, extmem, last, l>>
 
 TraceLines == ndJsonDeserialize(IOEnv.TRACE)
 N == Len(TraceLines)
@@ -22,6 +22,7 @@ Dispatch ==
   \/ Line.a = "New" /\ New(Line.arg.d, Line.arg.mode) /\ Line.arg.mem = arr'.val
   \/ Line.a = "Set" /\ Set(Line.arg.c, Line.arg.v)
   \/ Line.a = "Clear" /\ Clear(Line.arg.v)
+  \/ Line.a = "Poke" /\ Poke(Line.arg.o, Line.arg.v)
   \/ Line.a = "Get" /\ Get(Line.arg.c)
   \/ Line.a = "Range" /\ Range(Line.arg.lo, Line.arg.hi)
   \/ Line.a = "RangeWhole" /\ RangeWhole
@@ -31,8 +32,8 @@ Dispatch ==
   \/ Line.a = "ViewSlices" /\ ViewSlices(Line.arg.ps, Line.arg.probes)
 
 TStep  == l <= N /\ Line.a # "Reset" /\ Dispatch /\ ObsMatches /\ l' = l + 1
-TReset == l <= N /\ Line.a = "Reset" /\ arr' = NoArr /\ made' = FALSE
-          /\ last' = [a |-> "Init", arg |-> <<>>, cls |-> "", exp |-> Proj(NoArr)] /\ l' = l + 1
+TReset == l <= N /\ Line.a = "Reset" /\ arr' = NoArr /\ made' = FALSE /\ extmem' = FALSE
+          /\ last' = [a |-> "Init", arg |-> <<>>, cls |-> "", exp |-> Proj2(NoArr, FALSE)] /\ l' = l + 1
 TNext  == TStep \/ TReset
 TSpec  == TInit /\ [][TNext]_tvars
 
